@@ -4968,3 +4968,229 @@ func checkRecomputedNodeFlag(p *Program, r *Report, rule string) {
 	}
 	r.Floor(rule, "stores of recomputed nodes in the map forest", n, 2)
 }
+
+// ---------------------------------------------------------------------------
+// SIBLING-SIMULATIONS-AGREE (R11k, R15k). The question "which empty roots do
+// numAdds additions write over" is answered twice, by two functions that are
+// clones of one simulation: one over the verifier's root hashes (update data
+// of a block) and one over the tracker's root infos (caching schedule). They
+// must agree on their control structure: the same early exits (by what their
+// tests look at), loops bounded by the same inputs, and the result appended
+// under a test of the same input. Inputs are named by role: A = the number of
+// additions (first uint64 parameter), L = the leaf count (second), R = the
+// roots (the slice parameter), T = a row count (uint8). If one clone stops
+// simulating early, caps the additions or returns before looking, and the
+// other does not, one of them is wrong (Engler et al.: cross-checking
+// implementations of one interface).
+
+func simulationFingerprint(p *Program, fn *ssa.Function) (early []string, loops []string, emit []string, ok bool) {
+	role := map[ssa.Value]string{}
+	nU := 0
+	for _, par := range fn.Params {
+		switch t := par.Type().Underlying().(type) {
+		case *types.Slice:
+			role[par] = "R"
+		case *types.Basic:
+			switch t.Kind() {
+			case types.Uint64:
+				nU++
+				if nU == 1 {
+					role[par] = "A"
+				} else {
+					role[par] = "L"
+				}
+			case types.Uint8:
+				role[par] = "T"
+			}
+		}
+	}
+	if nU < 2 {
+		return nil, nil, nil, false
+	}
+	deps := func(v ssa.Value) string {
+		set := map[string]bool{}
+		seen := map[ssa.Value]bool{}
+		var walk func(v ssa.Value, d int)
+		walk = func(v ssa.Value, d int) {
+			if v == nil || seen[v] || d > 30 {
+				return
+			}
+			seen[v] = true
+			if r, ok := role[v]; ok {
+				set[r] = true
+				return
+			}
+			switch x := v.(type) {
+			case *ssa.Const, *ssa.Global, *ssa.Function, *ssa.Builtin:
+				return
+			case *ssa.Phi:
+				// a merged value also depends on the tests that select the incoming edge
+				for i, e := range x.Edges {
+					walk(e, d+1)
+					if i < len(x.Block().Preds) {
+						pb := x.Block().Preds[i]
+						if iff, ok := pb.Instrs[len(pb.Instrs)-1].(*ssa.If); ok {
+							walk(iff.Cond, d+1)
+						}
+					}
+				}
+				return
+			case *ssa.Alloc:
+				// a local variable: whatever is stored into it or into a part of it
+				for _, ref := range *x.Referrers() {
+					switch y := ref.(type) {
+					case *ssa.Store:
+						if y.Addr == ssa.Value(x) {
+							walk(y.Val, d+1)
+						}
+					case *ssa.FieldAddr:
+						for _, r2 := range *y.Referrers() {
+							if st, ok := r2.(*ssa.Store); ok && st.Addr == ssa.Value(y) {
+								walk(st.Val, d+1)
+							}
+						}
+					case *ssa.IndexAddr:
+						for _, r2 := range *y.Referrers() {
+							if st, ok := r2.(*ssa.Store); ok && st.Addr == ssa.Value(y) {
+								walk(st.Val, d+1)
+							}
+						}
+					}
+				}
+				return
+			}
+			if in, ok := v.(ssa.Instruction); ok {
+				for _, op := range in.Operands(nil) {
+					if op != nil && *op != nil {
+						walk(*op, d+1)
+					}
+				}
+			}
+		}
+		walk(v, 0)
+		var rs []string
+		for r := range set {
+			if r != "T" { // the row count is a layout parameter only one clone has
+				rs = append(rs, r)
+			}
+		}
+		sort.Strings(rs)
+		return "{" + strings.Join(rs, ",") + "}"
+	}
+	// loops, outermost first (by header index)
+	var headers []*ssa.BasicBlock
+	for _, b := range fn.Blocks {
+		if len(latches(b)) > 0 {
+			headers = append(headers, b)
+		}
+	}
+	inAnyLoop := func(b *ssa.BasicBlock) bool { return innermostLoopHeader(b) != nil }
+	for _, h := range headers {
+		loop := naturalLoop(h)
+		var conds []string
+		var blocks []*ssa.BasicBlock
+		for b := range loop {
+			blocks = append(blocks, b)
+		}
+		sort.Slice(blocks, func(i, j int) bool { return blocks[i].Index < blocks[j].Index })
+		for _, b := range blocks {
+			if innermostLoopHeader(b) != h && b != h {
+				continue // exits of inner loops are reported with the inner loop
+			}
+			iff, ok := b.Instrs[len(b.Instrs)-1].(*ssa.If)
+			if !ok {
+				continue
+			}
+			exits := false
+			for _, s := range b.Succs {
+				if !loop[s] {
+					exits = true
+				}
+			}
+			if exits {
+				conds = append(conds, deps(iff.Cond))
+			}
+		}
+		sort.Strings(conds)
+		depth := 0
+		for _, o := range headers {
+			if o != h && naturalLoop(o)[h] {
+				depth++
+			}
+		}
+		// only the simulation loops (bounded by the number of additions or the leaf count); a scan
+		// over the roots may as well live in a helper
+		joined := strings.Join(conds, "+")
+		if !strings.Contains(joined, "A") && !strings.Contains(joined, "L") {
+			continue
+		}
+		loops = append(loops, fmt.Sprintf("depth%d:%s", depth, joined))
+	}
+	sort.Strings(loops)
+	// early returns: returns outside every loop whose block is not the last return, with the guards they sit under
+	rets := returnsOf(fn)
+	for _, ret := range rets {
+		if inAnyLoop(ret.Block()) {
+			early = append(early, "in-loop:"+guardDeps(ret.Block(), deps))
+			continue
+		}
+		g := guardDeps(ret.Block(), deps)
+		if g != "" {
+			early = append(early, g)
+		}
+	}
+	sort.Strings(early)
+	// the result: appends inside the loops and the tests they sit under (inside the loop)
+	for _, b := range fn.Blocks {
+		if !inAnyLoop(b) {
+			continue
+		}
+		for _, in := range b.Instrs {
+			c, ok := in.(*ssa.Call)
+			if !ok {
+				continue
+			}
+			if bi, isB := c.Common().Value.(*ssa.Builtin); !isB || bi.Name() != "append" {
+				continue
+			}
+			if sl, ok := c.Type().Underlying().(*types.Slice); !ok || !isUint64(sl.Elem()) {
+				continue
+			}
+			emit = append(emit, guardDeps(b, deps))
+		}
+	}
+	sort.Strings(emit)
+	return early, loops, emit, true
+}
+
+// guardDeps: the inputs the branch conditions dominating b look at (one entry per guard, sorted).
+func guardDeps(b *ssa.BasicBlock, deps func(ssa.Value) string) string {
+	var gs []string
+	for _, g := range guardsAt(b) {
+		gs = append(gs, deps(g.Cond))
+	}
+	sort.Strings(gs)
+	return strings.Join(gs, "&")
+}
+
+func checkSiblingSimulations(p *Program, r *Report, rule string, a, b string) {
+	fa, fb := p.Func(a), p.Func(b)
+	if fa == nil || fb == nil {
+		r.MissingAnchor(rule, a+" / "+b, "one of the two simulations of the overwritten empty roots not found")
+		return
+	}
+	ea, la, ma, oka := simulationFingerprint(p, fa)
+	eb, lb, mb, okb := simulationFingerprint(p, fb)
+	key := a + "~" + b + "/control-structure"
+	if !oka || !okb {
+		r.Undecided(rule, key, p.Pos(fa.Pos()), "cannot name the inputs of the two simulations by role (number of additions, leaf count, roots)")
+		return
+	}
+	sa := fmt.Sprintf("early exits %v; loops %v; result appended under %v", ea, la, ma)
+	sb := fmt.Sprintf("early exits %v; loops %v; result appended under %v", eb, lb, mb)
+	if sa == sb {
+		r.Discharge(rule, key, p.Pos(fa.Pos()), "both simulations have the same control structure over their inputs (A additions, L leaf count, R roots): "+sa, true)
+		return
+	}
+	r.Violate(rule, key, p.Pos(fb.Pos()), fmt.Sprintf("the two simulations of the empty roots that additions write over disagree on their control structure: %s has %s; %s has %s - one of them stops, caps or returns where the other goes on, so for some forest the update data / the caching schedule misses a destroyed root", a, sa, b, sb), "in "+a+" and "+b)
+}
